@@ -497,9 +497,37 @@ func runC20(c *Check) {
 				}
 				n2++
 				c.Touch(fn)
+				// a bound that is the index a search handed out ("offset of the match or -1"): the test that
+				// counts is the one in force where the offset was found
+				highLin := linOfValue(sl.High)
+				var guardAt ssa.Instruction = in
+				for t, cf := range highLin.terms {
+					if phi, ok := stripConv(highLin.atoms[t]).(*ssa.Phi); ok && cf == 1 {
+						if fi := foundIndexOf(phi); fi != nil {
+							rest := highLin.clone()
+							delete(rest.terms, t)
+							delete(rest.atoms, t)
+							highLin = rest.plus(linOfValue(fi))
+							if fin, ok := fi.(ssa.Instruction); ok {
+								guardAt = fin.Block().Instrs[len(fin.Block().Instrs)-1]
+								// the block where the found value is chosen: the first use as a phi input
+								for _, r := range *fi.Referrers() {
+									if p2, ok := r.(*ssa.Phi); ok {
+										for i, e := range p2.Edges {
+											if e == fi {
+												pb := p2.Block().Preds[i]
+												guardAt = pb.Instrs[len(pb.Instrs)-1]
+											}
+										}
+									}
+								}
+							}
+						}
+					}
+				}
 				g := func(iff *ssa.If, br int) bool {
 					// the meaning of the comparison: it implies len(data) - high >= 0
-					target := linOfValue(sl.High).scale(-1)
+					target := highLin.scale(-1)
 					lenKey := "len(" + atomKey(sl.X) + ")"
 					target.terms[lenKey] += 1
 					if target.terms[lenKey] == 0 {
@@ -542,7 +570,7 @@ func runC20(c *Check) {
 					return (op == token.LEQ || op == token.LSS) && sameExpr(l, sl.X) || (op == token.LEQ || op == token.LSS) && sharesRoot(l, sl.X)
 				}
 				// multiplication-by-constant truncation `data[:K*n]` guarded by len(data) > K*n
-				ok2, w := mustPass(in, g)
+				ok2, w := mustPass(guardAt, g)
 				if !ok2 {
 					// data[:len(data)-k]: never above the length
 					t := linOfValue(sl.High).scale(-1)
